@@ -259,6 +259,46 @@ func c17R2(c *Ctx) {
 			}
 		}
 	})
+	// append position: both files are positioned at their END before writing, and the offset
+	// recorded in the index is the body file's end position
+	for _, op := range ops {
+		if op.kind != "seek" || (op.file != body && op.file != header) {
+			continue
+		}
+		cc := op.in.(ssa.CallInstruction).Common()
+		off, okO := constIntOf(cc.Args[1])
+		wh, okW := constIntOf(cc.Args[2])
+		if !(okO && okW && off == 0 && wh == 2) {
+			okAll = false
+			c.Violation(name, p.InstrPos(op.in), "append-position:"+op.file.Name(), fmt.Sprintf("the %s is positioned with Seek(%d, whence %d) before the append; it must be Seek(0, io.SeekEnd): after a reopen the file position is 0 and new messages would overwrite the oldest stored ones while the index still points at them", op.file.Name(), off, wh))
+		}
+	}
+	for _, op := range ops {
+		if op.kind == "write" && op.file == header {
+			cc := op.in.(ssa.CallInstruction).Common()
+			// fmt.Fprintf(header, "%d,%d,%d\n", seq, offset, len): the offset argument is the body Seek's result
+			found := false
+			if len(cc.Args) >= 3 {
+				if sl, ok := cc.Args[2].(*ssa.Slice); ok {
+					if al, ok := sl.X.(*ssa.Alloc); ok {
+						for _, e := range varargsElems(al) {
+							if e == nil {
+								continue
+							}
+							eo := p.Origin(e)
+							if eo.IsCallTo("(*os.File).Seek") && eo.Recv != nil && eo.Recv.Kind == "field" && eo.Recv.Field == body {
+								found = true
+							}
+						}
+					}
+				}
+			}
+			if !found {
+				okAll = false
+				c.Violation(name, p.InstrPos(op.in), "index-offset", "the offset written into the index line is not the end position of the body file returned by its Seek")
+			}
+		}
+	}
 	if nNil == 0 {
 		c.Violation(name, p.Pos(fn.Pos()), "no-success-path", "SaveMessage has no success path")
 		return
